@@ -91,7 +91,17 @@ def main(tier, seed):
                 yield pending.pop()
 
     with Pool() as pool:
-        for case, res in pool.imap_unordered(stream()):
+        def batches():
+            for cr in pool.imap_unordered(stream()):
+                yield cr
+            # error points of the last programs, whose results arrived after the stream had ended
+            while pending and time.time() < deadline + 30:
+                rest = pending[:]
+                del pending[:]
+                for cr in pool.imap_unordered(iter(rest)):
+                    yield cr
+
+        for case, res in batches():
             col.add(case, res)
             if case.get('_base') and 'harness_error' not in res:
                 stats['programs'] += 1
